@@ -3,6 +3,7 @@ package layerb
 import (
 	"fmt"
 	"go/types"
+	"os"
 	"path/filepath"
 	"sort"
 	"strings"
@@ -36,15 +37,46 @@ type Target struct {
 	GenPkg  *ssa.Package
 }
 
-// Load type-checks and builds SSA for the whole corpus module.
+// Load type-checks and builds SSA for the whole corpus module. Groups whose emitted code does not
+// type-check are recorded (Conv.LoadErr: the C01 gate) and set aside; the rest is loaded.
 func (d *Driver) Load() error {
-	l, err := engine.Load(d.C.Dir, "", nil, "./...")
-	d.L = l
-	if err != nil {
+	for attempt := 0; attempt < 4; attempt++ {
+		l, err := engine.Load(d.C.Dir, "", nil, "./...")
+		d.L = l
+		if err == nil {
+			return nil
+		}
 		d.LoadErr = err.Error()
-		return err
+		if l == nil || len(l.Errors) == 0 {
+			return err
+		}
+		bad := map[string][]string{}
+		for _, e := range l.Errors {
+			// positions look like /scratch/corpus/<group>/...: message
+			if !strings.HasPrefix(e, d.C.Dir+"/") {
+				continue
+			}
+			rel := strings.TrimPrefix(e, d.C.Dir+"/")
+			for g := range d.C.Groups {
+				if strings.HasPrefix(rel, g+"/") {
+					bad[g] = append(bad[g], rel)
+				}
+			}
+		}
+		if len(bad) == 0 {
+			return err
+		}
+		for g, msgs := range bad {
+			for _, cv := range d.C.Groups[g] {
+				if cv.LoadErr == "" {
+					cv.LoadErr = strings.Join(msgs, "; ")
+				}
+			}
+			// keep a copy for the replay, remove from the module
+			os.Rename(filepath.Join(d.C.Dir, g), filepath.Join(d.C.Root, "bad_"+strings.ReplaceAll(g, "/", "_")))
+		}
 	}
-	return nil
+	return fmt.Errorf("corpus does not load: %s", d.LoadErr)
 }
 
 func (d *Driver) target(cv *Conv) (*Target, error) {
@@ -100,9 +132,13 @@ func (d *Driver) target(cv *Conv) (*Target, error) {
 		}
 		return t, nil
 	}
-	impl, ok := gen.Members[cv.Name+"Impl"].(*ssa.Type)
+	implName := cv.Name + "Impl"
+	if cv.Spec != nil && cv.Spec.ImplName != "" {
+		implName = cv.Spec.ImplName
+	}
+	impl, ok := gen.Members[implName].(*ssa.Type)
 	if !ok {
-		return nil, fmt.Errorf("C01: emitted struct %sImpl missing", cv.Name)
+		return nil, fmt.Errorf("C01: emitted struct %s missing", implName)
 	}
 	pt := types.NewPointer(impl.Type())
 	if !types.Implements(pt, iface) {
@@ -277,6 +313,10 @@ func (d *Driver) exploreOne(cv *Conv, check CheckFn, opt ExploreOpt) *ConvReport
 	rep := &ConvReport{Conv: cv}
 	if !cv.GenOK {
 		rep.Skipped = "generation failed"
+		return rep
+	}
+	if cv.LoadErr != "" {
+		rep.Skipped = "C01 gate: emitted code does not type-check: " + cv.LoadErr
 		return rep
 	}
 	t, err := d.target(cv)
@@ -560,4 +600,52 @@ func (d *Driver) relPath(p string) string {
 		return rel
 	}
 	return p
+}
+
+// GateFinding is a C01 gate failure of one program.
+type GateFinding struct {
+	Conv *Conv
+	Kind string // "typecheck", "api"
+	Note string
+}
+
+// Gate checks, for every successfully generated program, that the emitted code type-checked together
+// with the user's packages and defines exactly the declared API.
+func (d *Driver) Gate(convs []*Conv) (checked int, out []GateFinding) {
+	for _, cv := range convs {
+		if !cv.GenOK || cv.ExpectFail {
+			continue
+		}
+		checked++
+		if cv.LoadErr != "" {
+			out = append(out, GateFinding{cv, "typecheck", "emitted code does not type-check: " + cv.LoadErr})
+			continue
+		}
+		t, err := d.target(cv)
+		if err != nil {
+			out = append(out, GateFinding{cv, "api", err.Error()})
+			continue
+		}
+		if t.Global != nil {
+			// init() must assign the variable: checked on the SSA of the package initialiser
+			assigned := false
+			for _, m := range t.InPkg.Members {
+				fn, ok := m.(*ssa.Function)
+				if !ok || !strings.HasPrefix(fn.Name(), "init") {
+					continue
+				}
+				for _, b := range fn.Blocks {
+					for _, in := range b.Instrs {
+						if st, ok := in.(*ssa.Store); ok && st.Addr == ssa.Value(t.Global) {
+							assigned = true
+						}
+					}
+				}
+			}
+			if !assigned {
+				out = append(out, GateFinding{cv, "api", "C01: init() does not assign variable " + cv.Method})
+			}
+		}
+	}
+	return
 }
